@@ -357,6 +357,14 @@ func (c *Ctx) exec(fr *frame, in ssa.Instruction) {
 		panic(c.abort("phi: predecessor not found in %s", fr.fn))
 	case *ssa.FieldAddr:
 		p := c.get(fr, in.X)
+		if sh, isSh := p.(*Shadow); isSh {
+			// promoted method through an embedded field of *tensor.Dense (AP, array)
+			if sh == nil {
+				panic(c.goPanic("nil *Dense dereference at %s", c.pos(in.Pos())))
+			}
+			fr.env[in] = sh
+			return
+		}
 		sp, ok := p.(*Value)
 		if !ok || sp == nil {
 			panic(c.goPanic("nil pointer dereference (field %d) at %s", in.Field, c.pos(in.Pos())))
@@ -367,7 +375,17 @@ func (c *Ctx) exec(fr *frame, in ssa.Instruction) {
 		}
 		fr.env[in] = &sv[in.Field]
 	case *ssa.Field:
-		sv := c.get(fr, in.X).(StructV)
+		xv := c.get(fr, in.X)
+		if d, ok := xv.(DtypeV); ok {
+			// tensor.Dtype{reflect.Type}: the embedded type descriptor
+			n := "<symbolic dtype>"
+			if d.Idx >= 0 {
+				n = dtypeUniverse[d.Idx].Name()
+			}
+			fr.env[in] = IfaceV{T: c.rtypeT(), V: RTypeV{Name: n}}
+			return
+		}
+		sv := xv.(StructV)
 		fr.env[in] = copyVal(sv[in.Field])
 	case *ssa.IndexAddr:
 		fr.env[in] = c.indexAddr(fr, in)
@@ -915,7 +933,14 @@ func (c *Ctx) rangeNext(itv Value, in *ssa.Next) Value {
 			return TupleV{c.St.True(), e.K, copyVal(e.V)}
 		}
 	}
-	return TupleV{c.St.False(), c.zero(tt.At(1).Type()), c.zero(tt.At(2).Type())}
+	zk, zv := Value(nil), Value(nil)
+	if b, ok := tt.At(1).Type().(*types.Basic); !ok || b.Kind() != types.Invalid {
+		zk = c.zero(tt.At(1).Type())
+	}
+	if b, ok := tt.At(2).Type().(*types.Basic); !ok || b.Kind() != types.Invalid {
+		zv = c.zero(tt.At(2).Type())
+	}
+	return TupleV{c.St.False(), zk, zv}
 }
 
 // ---- type assertions
